@@ -253,8 +253,11 @@ func runC19(c *Ctx) {
 		}
 	}
 	// statistical clause: real entropy, exact integer sums
-	type statCfg struct{ size, distinct, repeat int }
-	cfgs := []statCfg{{16, 200, 1}, {32, 1000, 3}, {64, 1500, 3}, {200, 6000, 2}, {8, 40, 2}, {100, 90, 4}}
+	// reuse = 1: the counter has already overflowed on another stream and was Reset: "restores the
+	// exact regime" must mean that nothing of its first life shows in the second
+	type statCfg struct{ size, distinct, repeat, reuse int }
+	cfgs := []statCfg{{16, 200, 1, 0}, {32, 1000, 3, 0}, {64, 1500, 3, 0}, {200, 6000, 2, 0}, {8, 40, 2, 0}, {100, 90, 4, 0},
+		{16, 200, 1, 1}, {64, 1500, 2, 1}}
 	runs := c.Pick(3000, 40000)
 	var stats []any
 	for _, cf := range cfgs {
@@ -266,6 +269,12 @@ func runC19(c *Ctx) {
 		maxLen := 0
 		for r := 0; r < n; r++ {
 			ctr := distinct.NewCounter[int](cf.size)
+			if cf.reuse == 1 {
+				for v := 0; v < 6*cf.size; v++ {
+					ctr.Add(-1 - v)
+				}
+				ctr.Reset()
+			}
 			// each value repeated `repeat` times in interleaved windows
 			win := 50
 			for base := 0; base < cf.distinct; base += win {
@@ -282,7 +291,7 @@ func runC19(c *Ctx) {
 			sum.Add(sum, x)
 			sumsq.Add(sumsq, new(big.Int).Mul(x, x))
 		}
-		stats = append(stats, map[string]any{"size": cf.size, "distinct": cf.distinct, "repeat": cf.repeat, "runs": n,
+		stats = append(stats, map[string]any{"size": cf.size, "distinct": cf.distinct, "repeat": cf.repeat, "reuse": cf.reuse, "runs": n,
 			"sum": sum.String(), "sumsq": sumsq.String(), "maxlen": maxLen})
 	}
 	c.Extra["stats"] = stats
